@@ -319,6 +319,7 @@ type gwClient struct {
 	island  uint64
 	timeout time.Duration
 	hung    string // set when a request did not return
+	inflight int   // requests in progress (reach probe: background file writes that overlap a request)
 }
 
 var ctxBg = context.Background()
@@ -329,6 +330,8 @@ func (c *gwClient) call(name string, f func()) bool {
 	if c.hung != "" {
 		return false
 	}
+	c.inflight++
+	defer func() { c.inflight-- }()
 	id := simrt.GoID(f)
 	if id < 0 {
 		return false
